@@ -222,13 +222,13 @@ def rule_postlex_cons(ctx: RuleContext, p: Program, rid: str) -> None:
               'PostLexInline.process does not return the stream unchanged', f2.where)
 
 
-def _gap_sem(p: Program, mb: Any, symbolic: bool = True) -> tuple[str, int]:
+def builder_interp(p: Program, mb: Any) -> tuple[Any, Any, Any, list]:
+    """the interpreter class for the methods of ModelBuilder (token classes, TOKEN_MODELS, from_raw_text / from_default are mocks: a built token
+    is an object with the type and the text it was built from); shared by BUILDER-CONS and TREE-SEM"""
     from . import possem
     from .tokenstore import TS
     ts = TS(p)
     m = p.module('parser')
-    fg = p.method(mb, '_fix_gap', inherited=False)
-    bt = p.method(mb, '_build_token', inherited=False)
 
     def token_class(name: str) -> Any:
         cands = [c for c in p.class_by_name.get(name, []) if not c.module.name.endswith('_test') and any(d.rsplit('.', 1)[-1] == 'token_model' for d in c.decorators)]
@@ -286,12 +286,21 @@ def _gap_sem(p: Program, mb: Any, symbolic: bool = True) -> tuple[str, int]:
                 raise self.err(e, 'isinstance against a class this rule does not model')
             return super().expr(e, env)
 
-    import itertools
     from .c12 import grammar
     # the module-level set of token types the grammar %ignores (`_IGNORED_TOKENS = frozenset(_GRAMMAR.ignore)`), whatever it is called
     ignored_name = next((t.id for st in ast.walk(m.tree) if isinstance(st, ast.Assign) for t in st.targets if isinstance(t, ast.Name)
                          and isinstance(st.value, ast.Call) and any(isinstance(x, ast.Attribute) and x.attr == 'ignore' for x in ast.walk(st.value))), None)
     ignored_types = list(grammar(p).ignore)
+    Interp.token_class = staticmethod(token_class)        # type: ignore[attr-defined]
+    return Interp, ts, m, ignored_types
+
+
+def _gap_sem(p: Program, mb: Any, symbolic: bool = True) -> tuple[str, int]:
+    from . import possem
+    import itertools
+    Interp, ts, m, ignored_types = builder_interp(p, mb)
+    fg = p.method(mb, '_fix_gap', inherited=False)
+    bt = p.method(mb, '_build_token', inherited=False)
     kinds = {'t': ('ACCOUNT', 'Assets:A'), 'e': ('EOL', ''), 'c': ('BLOCK_COMMENT', '; note'), 'w': ('WHITESPACE', ' '), 'i': ('INDENT', '  '), 'j': ('INDENT', '')}
     cases = 0
     def concrete_pass(full: bool = False) -> Optional[str]:
@@ -692,6 +701,8 @@ def run(ctx: RuleContext, p: Program) -> None:
     ctx.try_rule(round4.rule_text_verbatim, p, 'TEXT-VERBATIM')
     from . import c12
     ctx.try_rule(c12.rule_gram_look, p, c12.grammar(p), 'GRAM-LOOK')
+    from . import treesem
+    ctx.try_rule(treesem.rule_tree_sem, p, 'TREE-SEM')
     ctx.not_decided += ['that lark accepts a given text', 'that the LALR tree\'s leaves are visited in token order', 'CR/LF layouts',
                         'comment attribution effects (C04/C14)', 'spans of sub-models']
     ctx.assumptions += ['lark lexers emit tokens whose values concatenate to the input (contextual lexer, no %ignore left after '
